@@ -106,6 +106,8 @@ pub enum Error {
     ExcessiveBlockSize,
     /// Invalid frame sync code
     InvalidSyncCode,
+    /// The reserved bit of a frame header is not 0
+    InvalidReservedBit,
     /// Invalid frame block size
     InvalidBlockSize,
     /// Block size in frame is larger than maximum block size in STREAMINFO
@@ -239,6 +241,7 @@ impl std::fmt::Display for Error {
             Self::ExcessivePictureSize => "excessive PICTURE data size".fmt(f),
             Self::ExcessiveBlockSize => "excessive metadata block size".fmt(f),
             Self::InvalidSyncCode => "invalid frame sync code".fmt(f),
+            Self::InvalidReservedBit => "reserved frame header bit is set".fmt(f),
             Self::InvalidBlockSize => "invalid frame block size".fmt(f),
             Self::ShortBlock => "block size <= 14 must be last in stream".fmt(f),
             Self::BlockSizeMismatch => {
